@@ -2,9 +2,9 @@
    projection lemmas (a Sys run projects to a Client run and a Server run) and the wire invariant. *)
 From Coq Require Import List ZArith Bool Lia Arith.
 Import ListNotations.
-From Goat Require Import Model.Client Model.Server Proofs.ClientBase Proofs.ClientInv Proofs.ClientLive Proofs.ClientLog
+From Goat Require Import Model.Client Model.Protocol Model.Server Proofs.ClientBase Proofs.ClientInv Proofs.ClientLive Proofs.ClientLog
   Proofs.ClientProps Proofs.ProtocolClient Proofs.ClientCancel Proofs.ClientWedge
-  Proofs.ServerProofs Proofs.ServerInv Proofs.ServerCancel Proofs.ServerReset
+  Proofs.ServerProofs Proofs.ServerInv Proofs.ServerCancel Proofs.ServerReset Proofs.ServerWriter Proofs.ServerProto
   Model.Sys Proofs.SysLog Proofs.SysProofs Proofs.SysC01b.
 Open Scope Z_scope.
 
@@ -125,4 +125,98 @@ Proof.
   right. right. repeat split; auto.
   - destruct (s2c s); auto; discriminate.
   - destruct (c2s s); auto; discriminate.
+Qed.
+
+(* ---------- C06 end to end: what the client puts on the wire keeps the peer's side of the server theorem ---------- *)
+Lemma sconf_app i a b : sconf i (a ++ b) -> sconf i a.
+Proof.
+  intros (A & B & C). split; [|split].
+  - intros x Hx. apply A. apply in_or_app; auto.
+  - intros pre x post E. apply (B pre x (post ++ b)). rewrite E, <- app_assoc. reflexivity.
+  - intros x y Hx Hy. apply C; apply in_or_app; auto.
+Qed.
+
+Definition src_ok (s : Sys.state) : Prop := forall fr, In fr (sent_c2s s) -> f_src fr = cli_name.
+
+Lemma src_ok_reach pol ls : forall s s', src_ok s -> Sys.lrun pol s ls = Some s' -> src_ok s'.
+Proof.
+  induction ls as [|l ls IH]; simpl; intros s s' HS H.
+  - inversion H; subst; auto.
+  - destruct (Sys.lstep pol s l) as [s1|] eqn:E; [|discriminate]. apply (IH s1); auto.
+    destruct l as [x|x| |]; cbn [Sys.lstep] in E.
+    + destruct (client_label_ok x); [|discriminate]. destruct (Client.lstep (cl s) x) as [c'|]; [|discriminate].
+      inversion E; subst s1. intros fr Hin. cbn [sent_c2s] in Hin. apply in_app_or in Hin. destruct Hin as [Hin|Hin]; auto.
+      apply in_map_iff in Hin. destruct Hin as (e & <- & _). reflexivity.
+    + destruct (server_label_ok x && pol_ok pol (sv s) x); [|discriminate]. destruct (Server.lstep (sv s) x); [|discriminate].
+      inversion E; subst s1. exact HS.
+    + destruct (c2s s); [discriminate|]. inversion E; subst s1. exact HS.
+    + destruct (s2c s); [discriminate|]. inversion E; subst s1. exact HS.
+Qed.
+
+Lemma idf_split i pre g post : fid g = i -> idf i (pre ++ g :: post) = idf i pre ++ g :: idf i post.
+Proof. intros H. unfold idf. rewrite filter_app. simpl. rewrite (proj2 (Z.eqb_eq _ _) H). reflexivity. Qed.
+
+Lemma C06_sys_sconf pol ls s c k :
+  Sys.lrun pol Sys.init ls = Some s -> api_ok (proj_c pol Sys.init ls) ->
+  nth_error (calls (cl s)) c = Some k -> k_pc k = POpen -> l_abort k = false ->
+  sconf (k_id k) (sent_c2s s).
+Proof.
+  intros H Hapi Hn Hp Hab.
+  pose proof (proj_c_run _ _ _ _ H) as Hc. simpl in Hc.
+  destruct (winv_reach _ _ _ H) as [W1 _ _].
+  destruct (ClientInv.inv_reach _ _ Hc) as [HI HS].
+  pose proof (cinv_call _ _ _ HI Hn) as K.
+  assert (Hpos : 0 < k_id k) by (apply (ki_id _ K); rewrite Hp; reflexivity).
+  assert (Hstream : k_unary k = false).
+  { pose proof (ki_kind _ K) as Hk. destruct (k_unary k); auto. rewrite Hp in Hk. discriminate. }
+  assert (Hown : forall fr, In fr (sent_c2s s) -> fid fr = k_id k -> f_mth fr = MStream 0 /\ f_dst fr = srv_name).
+  { intros fr Hin Hid. destruct (sent_ok_init _ _ _ H fr Hin) as (n' & k' & Hn' & Hid' & _ & Hm & Hd).
+    assert (n' = c).
+    { destruct (Nat.eq_dec n' c); auto. exfalso. eapply (si_id_uniq _ HS n' c k' k); eauto; try lia; congruence. }
+    subst n'. rewrite Hn in Hn'. inversion Hn'; subst k'. unfold kind_of in Hm. rewrite Hstream in Hm. auto. }
+  (* the shape of the client's envelopes of this id *)
+  destruct (J_reach _ _ Hc) as (_ & _ & J3). destruct (J3 _ _ Hn) as (_ & _ & _ & D & _). rewrite Hp in D.
+  destruct (D Hab Hapi) as (nC & nR & (bs & S) & _).
+  unfold wr in S. rewrite wr_cwrites, <- W1, <- filter_map_env in S. fold (idf (k_id k) (sent_c2s s)) in S.
+  split; [|split].
+  - intros g Hin Hi Hd. destruct (Hown _ Hin Hi) as (Hm & _). unfold dispatch in Hd. rewrite Hm in Hd.
+    destruct (ehdr (f_env g)); try discriminate. destruct (f_dst g =? srv_name); discriminate.
+  - intros pre g post E Hi (g0 & Hin0 & Hi0).
+    assert (X : In g0 (idf (k_id k) pre)) by (unfold idf; apply filter_In; split; auto; apply Z.eqb_eq; auto).
+    rewrite E, (idf_split _ _ _ _ Hi), map_app in S. simpl in S.
+    destruct (idf (k_id k) pre) as [|a r]; [destruct X|]. simpl in S. inversion S as [[Sa St]].
+    (* g's envelope is among the bodies, closes and resets *)
+    assert (Hg : In (f_env g) (map (body_env (k_id k)) bs ++ repeat (close_env (k_id k)) nC ++ repeat (rst_env (k_id k)) nR)).
+    { rewrite <- St. apply in_or_app. right. left. reflexivity. }
+    unfold hdr_only, has_body, has_trl, Server.is_rst.
+    apply in_app_or in Hg. destruct Hg as [Hg|Hg].
+    + apply in_map_iff in Hg. destruct Hg as (b & <- & _). reflexivity.
+    + apply in_app_or in Hg. destruct Hg as [Hg|Hg]; apply repeat_spec in Hg; rewrite Hg; reflexivity.
+  - intros g1 g2 I1 I2 E1 E2. destruct (Hown _ I1 E1) as (M1 & D1). destruct (Hown _ I2 E2) as (M2 & D2).
+    assert (Hsrc : src_ok s) by (eapply (src_ok_reach pol ls Sys.init s); [intros fr []|exact H]).
+    repeat split; try congruence. rewrite (Hsrc _ I1), (Hsrc _ I2). reflexivity.
+Qed.
+
+(* C06 end to end: for every run of the system with API-conformant users, the envelopes the SERVER writes for the id
+   of a (non-aborted) stream call of the client are accepted by the server-to-client automaton; the envelopes the
+   CLIENT writes for it are accepted by the client-to-server automaton (C06_client on the projected run) *)
+Lemma C06_sys_l pol ls s c k :
+  Sys.lrun pol Sys.init ls = Some s -> api_ok (proj_c pol Sys.init ls) ->
+  nth_error (calls (cl s)) c = Some k -> k_pc k = POpen -> l_abort k = false ->
+  proto_s2c false (proj (k_id k) (map pf (written (Server.log (sv s))))) = true /\
+  forall rt, proto_c2s (proj (k_id k) (map (lift rt) (wr (cl s)))) = true.
+Proof.
+  intros H Hapi Hn Hp Hab. split.
+  - pose proof (proj_s_run _ _ _ _ H) as Hs. simpl in Hs.
+    eapply (C06_server_stream_l nworkers); eauto.
+    destruct (winv_reach _ _ _ H) as [_ W2 _].
+    pose proof (C06_sys_sconf _ _ _ _ _ H Hapi Hn Hp Hab) as Sc. rewrite <- W2 in Sc. eapply sconf_app; eauto.
+  - intros rt. pose proof (proj_c_run _ _ _ _ H) as Hc. simpl in Hc.
+    eapply C06_client_l; eauto.
+    intros c' k' Hn' Hid. destruct (ClientInv.inv_reach _ _ Hc) as [HI HS].
+    assert (c' = c).
+    { destruct (Nat.eq_dec c' c); auto. exfalso.
+      assert (Hpos : 0 < k_id k) by (apply (ki_id _ (cinv_call _ _ _ HI Hn)); rewrite Hp; reflexivity).
+      eapply (si_id_uniq _ HS c' c k' k); eauto; try lia. }
+    subst c'. rewrite Hn in Hn'. inversion Hn'; subst k'. exact Hab.
 Qed.
